@@ -238,6 +238,14 @@ func genC13(r *rand.Rand) (*Program, []*tagSite) {
 			}
 		}
 	}
+	// statement calls that are handed a pointer (a fact, a nested struct): no invalidation event
+	for _, rule := range prog.Rules {
+		if r.Intn(3) == 0 {
+			ptr := []string{"F.In", "G.In", "F", "G", "F.PN"}[r.Intn(5)]
+			arg := VarE(P(ptr), TAny, reflect.Ptr)
+			rule.Then = append(rule.Then, &Stmt{Kind: "call", Call: CallE(tool(), "Note", TAny, reflect.Invalid, arg)})
+		}
+	}
 	for _, s := range sites {
 		s.ProgVars = progVars
 	}
